@@ -312,9 +312,17 @@ Definition page_span (ps off len : N) : N * nat :=
   let ep := (off + len - 1) / ps in          (* end_offset.saturating_sub(1) *)
   (sp, N.to_nat (ep + 1 - sp)).
 
-Definition pc_read (c : pcache) (fid off len : N) : pcache * list N :=
+Definition pc_read_pages (c : pcache) (fid off len : N) : pcache * list N :=
   let '(sp, np) := page_span (psize c) off len in
   read_loop np c fid sp off len [].
+
+(* LruPageCache::read: the request is first clamped to the size of an opened file *)
+Definition pc_read (c : pcache) (fid off len : N) : pcache * list N :=
+  match files c fid with
+  | Some f => if nlen f <=? off then (c, [])
+              else pc_read_pages c fid off (N.min len (nlen f - off))
+  | None => pc_read_pages c fid off len          (* virtual file id: file_size fails, no clamp *)
+  end.
 
 Fixpoint prefetch_loop (np : nat) (c : pcache) (fid page : N) : pcache :=
   match np with
